@@ -208,7 +208,7 @@ DResolve(id) ==
 
 BlockView(p, st) ==
   [kind |-> "block", n |-> Len(p) - 1, hash |-> p, parent |-> Front(p), status |-> st,
-   txs |-> TxsOf(p), exec |-> [i \in 1..Len(TxsOf(p)) |-> Exec(TxsOf(p)[i])]]
+   txs |-> TxsOf(p), execs |-> [i \in 1..Len(TxsOf(p)) |-> Exec(TxsOf(p)[i])]]
 
 DBlock(id) == LET n == DResolve(id) IN
   IF n = -1 THEN Err("BlockNotFound") ELSE BlockView(Prefix(chain, n + 1), Status(n, l1))
